@@ -66,3 +66,6 @@ def run(ctx):
     ctx.floor("B14", 1)
     B.b15_assumed_matches_withdrawn(ctx)
     ctx.floor("B15", 1)
+    from ..engines import mapplumbing as M12
+    M12.m7_equivalence_predicate(ctx)
+    ctx.floor("M7", 4)
